@@ -273,19 +273,22 @@ func checkC03(e *Engine, r *Report) {
 		case fIso:
 			// (a) enough isolated CPUs for ALL requested cores, (b) isolation requested
 			notEnough := func(cond ssa.Value) (bool, bool) {
-				b, ok := cond.(*ssa.BinOp)
+				_, _, op, ok := cmpOriented(cond, func(v ssa.Value) bool {
+					call, ok := v.(*ssa.Call)
+					if !ok || callObj(call.Common()) == nil || callObj(call.Common()).Name() != "Size" {
+						return false
+					}
+					g, _ := loadedField(callArgs(call)[0])
+					return g == fIso
+				})
 				if !ok {
 					return false, false
 				}
-				if call, ok := b.X.(*ssa.Call); ok && callObj(call.Common()) != nil && callObj(call.Common()).Name() == "Size" {
-					if g, _ := loadedField(callArgs(call)[0]); g == fIso {
-						switch b.Op {
-						case token.GEQ, token.GTR:
-							return true, false
-						case token.LSS, token.LEQ:
-							return true, true
-						}
-					}
+				switch op {
+				case token.GEQ, token.GTR:
+					return true, false
+				case token.LSS, token.LEQ:
+					return true, true
 				}
 				return false, false
 			}
